@@ -168,22 +168,22 @@ func DefaultConfig() *Config {
 		HolePkgs: []string{
 			"go.uber.org/zap", "github.com/pingcap/log", "github.com/prometheus/",
 			"github.com/opentracing/", "go.uber.org/multierr", "github.com/sirupsen/logrus",
-			"github.com/grpc-ecosystem/", "log",
+			"github.com/grpc-ecosystem/", "log$", "google.golang.org/grpc",
 		},
 		InterpPkgs: []string{
 			"github.com/tikv/pd", "github.com/pingcap/errors", "github.com/pingcap/failpoint",
 			"github.com/pingcap/kvproto", "go.uber.org/atomic", "github.com/pkg/errors",
-			"errors", "sort", "strings", "bytes", "strconv", "unicode", "math", "container/",
-			"encoding/binary", "encoding/hex", "path", "time", "sync", "context",
+			"errors$", "sort$", "strings$", "bytes$", "strconv$", "unicode$", "unicode/utf8$", "math$", "container/",
+			"encoding/binary$", "encoding/hex$", "path$", "time$", "sync$", "context$",
 			"github.com/gogo/protobuf/proto", "github.com/golang/protobuf/proto",
-			"go.etcd.io/etcd/clientv3", "go.etcd.io/etcd/etcdserver/etcdserverpb", "go.etcd.io/etcd/mvcc/mvccpb",
+			"go.etcd.io/etcd/clientv3$", "go.etcd.io/etcd/etcdserver/etcdserverpb", "go.etcd.io/etcd/mvcc/mvccpb",
 			"github.com/coreos/go-semver", "github.com/docker/go-units", "github.com/phf/go-queue",
-			"internal/bytealg", "internal/itoa", "github.com/google/btree", "math/bits", "github.com/montanaflynn/stats",
+			"internal/bytealg$", "internal/itoa$", "github.com/google/btree", "math/bits$", "github.com/montanaflynn/stats",
 		},
 		InitPkgs: []string{
-			"github.com/tikv/pd", "github.com/pingcap/errors", "errors", "strconv", "unicode", "math", "sort", "strings", "bytes",
-			"encoding/binary", "encoding/hex", "github.com/pingcap/kvproto", "go.etcd.io/etcd/clientv3", "context", "time", "go.uber.org/atomic",
-			"go.etcd.io/etcd/etcdserver/etcdserverpb", "go.etcd.io/etcd/mvcc/mvccpb", "github.com/coreos/go-semver", "github.com/docker/go-units",
+			"github.com/tikv/pd", "github.com/pingcap/errors", "strconv$", "unicode$", "math$", "sort$", "strings$", "bytes$",
+			"encoding/binary$", "encoding/hex$", "github.com/pingcap/kvproto", "context$", "go.uber.org/atomic",
+			"go.etcd.io/etcd/etcdserver/etcdserverpb", "go.etcd.io/etcd/mvcc/mvccpb",
 		},
 	}
 }
